@@ -203,6 +203,28 @@ CHECKS = {
              "concurrency is covered on the live double",
         design="4/C18",
     ),
+    "C11": dict(
+        category="exploration",
+        technique="Hypothesis-generated schedules on a live-exchange double (real Flumine, BetfairExecution, betfairlightweight "
+                  "request/response code and order-stream cache; fake HTTP session and a deterministic task scheduler) with a "
+                  "convergence oracle against the double's bet table at quiescent points and an adoption / restart oracle",
+        text="Requests, exchange-side fills / lapses, snapshots taken now and processed later or twice, execution tasks run in any "
+             "order with snapshots processed while their API call is in flight, crash + restart with a fresh-subscription image, "
+             "bets of unknown strategies. One recorded genuine race defect (partial cancel vs stream update) is reported as "
+             "KNOWN-FINDING. Held otherwise on everything explored.",
+        note="the double is a model of the exchange's documented API / stream shapes; schedules at handler granularity; no transport faults here (C12)",
+        design="4/C11",
+    ),
+    "C12": dict(
+        category="fault_enumeration",
+        technique="exhaustive enumeration (sharded over 16 processes) of fault assignments against the live double and the stepped "
+                  "simulation, each combination judged by status / trade / transaction-count / retry-count / convergence oracles",
+        text="All ~44k combinations of kind x package size 1-3 x per-instruction outcome x orders completed in between x report "
+             "order / missing report x transport fault on attempts 1-4 (live) and kind x size x per-order fate x market status at "
+             "execution (simulated) are executed in both tiers. Held on every combination.",
+        note="exchange double answers with the documented JSON-RPC shapes and de-duplicates by customerRef as the exchange does; Betdaq outside",
+        design="4/C12",
+    ),
 }
 
 NOT_BUILT_REASON = "check not built yet (build in progress; see DESIGN.md section 4)"
